@@ -271,3 +271,29 @@ def replay(ctx, path):
         ctx.run([binary, "frame", cases, fres, ctx.path("t.ndjson")])
         report(ctx, fres, {})
     return ctx.finish(rule="replay of one recorded violation", evaluations=1, distinct_nontrivial=1)
+
+
+MANIFEST = {
+    "engine": "copysem",
+    "spec": "spec/CopySemantics.tla",
+    "engine_text": "CopySemantics.tla (heap model of scalars, vectors, matrices, views and iterators; copy / reference / probe "
+                   "classification from the documentation), CopySemanticsTrace.tla, FrameConditions.tla (table "
+                   "MayModify(entry, mode) over all algorithm entry points, container operations, distributions and estimators), "
+                   "FrameTrace.tla; Go driver harness/cmd/copysem",
+    "technique": "TLA+ contract checked by TLC; one replay case per transition of the heap model's state graph executed on the real "
+                 "containers for dense/sparse storage and nine element types; frame-condition cases enumerated by TLC with argument "
+                 "digests before/after the call; recorded real histories and digests validated by TLC trace specifications",
+    "text": "TLC explores all call histories of the heap model within the bounds (up to 3 live objects of at most 6 cells, one "
+            "pre-mutation, derivation chains of clones, As-conversions, slices, transposes, rows, element references and iterators, "
+            "then one or two mutations through any of them) and prints every transition with the content of every live object; the "
+            "histories are executed on the real types and values, derivative state, dimensions, iteration sequence and iterator "
+            "positions of all objects are compared, so a mutation that becomes visible through a copy, or a copy that differs from "
+            "its source, is reported. For every algorithm entry point, container operation, distribution and estimator entry with "
+            "every valid option combination and in-situ mode, all arguments are digested bitwise before and after the call and "
+            "compared with the frame condition printed by TLC. Seeded random longer histories and the logged digests are accepted "
+            "by the trace specifications. Bounded model checking plus conformance, not a proof.",
+    "note": "Trusted: TLC, CommunityModules Json, the Go driver's projection through the public read API (ConstAt, Get*, Dims, "
+            "iterators). Sparse views are compared only where C10/C11 constrain them; calls that panic are not compared. Bounds are "
+            "echoed in evidence (coverage.bounds).",
+    "design_ref": "DESIGN.md section 5 (C12), section 4 (CopySemantics.tla), section 3.6",
+}
